@@ -41,7 +41,7 @@ ASSUMPTIONS = [
     "Event-only layout: the statement speaks of tables of visits; asserted are one row per individual, per-individual event content, row-order independence and the round trip, not first-appearance order.",
     "Only real (non-padded) entries of timepoints/values are compared; padded and missing entries are judged through the mask only. Ages and event times are compared within 1 float32 ulp of the 6-digit rounded input (the statement only promises single precision); values bit-exact (float32 cast) on present cells.",
     "Round trip: Dataset.to_pandas() re-ingested with the same layout, compared per individual keyed by id (to_pandas documents a sorted index); ages and event times within 4 float32 ulps, everything else exact; the order of the re-ingested individuals must be the first-appearance order of the to_pandas table.",
-    "Malformed input must raise LeaspyDataInputError (subclass check); any other exception type or acceptance is a violation. The caller's DataFrame must `equals` its deep copy (values, dtypes, index, index names, columns) after every call, accepted or refused.",
+    "A NaN event time / event code on only some of the rows of an individual (joint layout) is a malformation (missing / inconsistent event): it must be refused, not filled from the individual's other rows; not applicable to the event-only layout (one row per individual). Malformed input must raise LeaspyDataInputError (subclass check); any other exception type or acceptance is a violation. The caller's DataFrame must `equals` its deep copy (values, dtypes, index, index names, columns) after every call, accepted or refused.",
     "Defect classes D1-D4 found by this check (see EXCLUDED_DEFECTS) are part of the search by default (their repairs are fix: commits); VF_C14_INCLUDE=none|D1,.. excludes/neutralises them again (counted with col.exclude). Their reproducers run in every tier and their outcome is reported in the evidence notes.",
 ]
 
@@ -86,7 +86,10 @@ MAL_VISIT = ["dup-exact", "dup-rounded", "age-nan", "age-inf", "age-neginf", "ag
 MAL_ID = ["id-nan", "id-empty", "id-negative", "id-float", "id-mixed"]
 MAL_EVENT_COMMON = (["event-time-zero", "event-time-negative", "event-time-nan", "event-time-inf", "event-code-fraction"]
                     + ([] if EXCLUDE_D2 else ["event-code-nan"]) + ([] if EXCLUDE_D3 else ["event-code-negative"]))
-MAL_JOINT = ["event-disagree-time", "event-disagree-code", "event-before-last-visit-observed"]
+# *-nan-partial: the cell is NaN on a strict, non-empty subset of the rows of an individual with >= 2 rows (must not be filled
+# silently from the individual's other rows); the code variant belongs to the NaN-event-code class D2
+MAL_JOINT = (["event-disagree-time", "event-disagree-code", "event-before-last-visit-observed", "event-time-nan-partial"]
+             + ([] if EXCLUDE_D2 else ["event-code-nan-partial"]))
 MAL_EVENT_ONLY = ["event-duplicate-id", "no-id-column"]
 MAL_COV = ["cov-nan", "cov-fraction", "cov-varying", "cov-constant"]
 ALL_MAL = sorted(set(MAL_VISIT + MAL_ID + MAL_EVENT_COMMON + MAL_JOINT + MAL_EVENT_ONLY + MAL_COV))
@@ -99,6 +102,8 @@ REQUIRED_CLASSES = {
     "id:int": 50, "id:categorical": 50, "id:unicode": 50, "ages:micro": 100, "ages:int-dtype": 20, "censored-before-last-visit": 10,
     "competing-events": 30,
     **{f"mal:{k}": 3 for k in ALL_MAL},
+    "mal:event-time-nan-partial": 10,
+    **({} if EXCLUDE_D2 else {"mal:event-code-nan-partial": 10}),
     **({} if EXCLUDE_D4 else {"categorical-unused-category": 20, "categorical-dropped-individual": 3}),
 }
 
@@ -320,6 +325,14 @@ def apply_mal(case):
     elif kind in ("event-code-nan", "event-code-negative"):
         for k in of[ind]:
             rows[k][x0 + 1] = None if kind == "event-code-nan" else -1 - mal["j"] % 2
+    elif kind in ("event-time-nan-partial", "event-code-nan-partial"):
+        i = multi[mal["ind"] % len(multi)]
+        m = len(of[i])
+        bits = 1 + mal["j"] % (2 ** m - 2)  # 1 .. 2^m - 2: strict, non-empty subset of the individual's rows
+        c = x0 if kind == "event-time-nan-partial" else x0 + 1
+        for b, k in enumerate(of[i]):
+            if (bits >> b) & 1:
+                rows[k][c] = None
     elif kind in ("event-disagree-time", "event-disagree-code"):
         i = multi[mal["ind"] % len(multi)]
         k = of[i][mal["j"] % len(of[i])]
@@ -874,6 +887,8 @@ def shard_exhaustive(shard: int = 0):
                                 "value-neginf", "id-nan", "id-empty", "cov-nan", "cov-varying", "event-duplicate-id") else 1
             n_i = n_ids if kind.startswith(("event-", "cov-fraction", "id-negative", "id-mixed")) else 1
             n_j = 2 if kind.startswith(("value-", "cov-", "dup-rounded", "id-float", "event-disagree", "event-code-negative")) else 1
+            if kind.endswith("-nan-partial"):
+                n_j = 6  # every strict non-empty subset of the rows of an individual with <= 3 rows
             for r in range(n_r):
                 for i in range(n_i):
                     for j in range(n_j):
